@@ -318,6 +318,40 @@ func init() {
 	add("C18", ruleR18_8)
 	add("C20", ruleR09_13)
 	add("C09", ruleR09_14)
+	// round 9
+	add("C08", ruleR08_6)
+	add("C16", ruleR16_14)
+	add("C08", ruleR16_14)
+	add("C12", ruleR16_14)
+	add("C09", ruleR09_15)
+	add("C06", ruleR09_15)
+	add("C15", ruleR09_15)
+	add("C13", ruleR13_9)
+	add("C14", ruleR14_9)
+	add("C11", ruleR14_9)
+	add("C19", ruleR14_9)
+	add("C17", ruleR17_13)
+	add("C18", ruleR18_9)
+	add("C19", ruleR19_9)
+	add("C13", ruleR19_9)
+	add("C20", ruleR20_6)
+	add("C01", ruleR20_6)
+	add("C09", ruleR20_6)
+	add("C01", ruleR03_6)
+	add("C03", ruleR19_1)
+	add("C04", ruleR07_5, ruleR13_3, ruleR14_6)
+	add("C05", ruleR11_2, ruleR06_3)
+	add("C07", ruleR12_4, ruleR09_4)
+	add("C09", ruleR20_1)
+	add("C10", ruleR09_2)
+	add("C11", ruleR15_5, ruleR12_1, ruleR12_4)
+	add("C12", ruleR17_6, ruleR17_9)
+	add("C13", ruleR11_6)
+	add("C14", ruleR19_2)
+	add("C15", ruleR03_4, ruleR04_7)
+	add("C16", ruleR17_11)
+	add("C19", ruleR05_5)
+	add("C20", ruleR13_3, ruleR18_4)
 	add("C01", ruleR09_14)
 	add("C09", ruleR09_13)
 	add("C05", ruleR09_13)
